@@ -265,6 +265,136 @@ def run(chk: Check, eng: Engine) -> None:
             chk.bad("R11-c", eng.relfile(m), m.line, m.fq, f"{c.name}.__copy__ does not build a new object", "copy() on a memo hit returns the entry itself", keyparts=f"copy-identity|{c.name}")
 
 
+    chk.rule("R11-d", "what a memo hit deep-copies is copyable: the type closure of every deepcopy() argument in a Fitness.__copy__ stays clear of "
+             "grammar / constraint objects (they hold the spec's globals - modules - and must be shared, not copied)", floor=3)
+    copy_closure_rule(chk, eng, fitb)
+
+
+UNCOPYABLE_ATTRS = {"global_variables", "_global_variables"}
+
+
+def _ann_all_class_names(ann) -> list[str]:
+    """Class names anywhere in an annotation (value, element, dict value, Optional ...); strings are parsed."""
+    if ann is None:
+        return []
+    if isinstance(ann, ast.Constant) and isinstance(ann.value, str):
+        try:
+            return _ann_all_class_names(ast.parse(ann.value, mode="eval").body)
+        except SyntaxError:
+            return []
+    out = []
+    for n in ast.walk(ann):
+        if isinstance(n, ast.Name):
+            out.append(n.id)
+        elif isinstance(n, ast.Attribute):
+            out.append(n.attr)
+        elif isinstance(n, ast.Constant) and isinstance(n.value, str) and n is not ann:
+            out += _ann_all_class_names(n)
+    return out
+
+
+def copy_closure_rule(chk: Check, eng: Engine, fitb) -> None:
+    """R11-d.  copy.deepcopy descends into every attribute of every object it meets unless a class defines __deepcopy__.
+    A class-level field graph (annotations, `self.x = <annotated parameter>`, `self.x = Class(...)`) over-approximates that descent:
+      * a class with a hand-written __deepcopy__ that does not loop over `self.__dict__` decides itself what it copies (trusted, counted);
+      * one that loops over `self.__dict__` descends into all attributes except those it seeds into the memo (`memo[id(self.x)] = self.x`);
+      * a class without __deepcopy__ descends into all attributes.
+    Reaching a class that owns the spec's globals (attribute `global_variables`) is a violation: those dictionaries hold module
+    objects, deepcopy raises TypeError, and the cached evaluation fails where the fresh one succeeded."""
+    ix = eng.ix
+
+    def classes_named(name: str):
+        return ix.classes_by_name.get(name, [])
+
+    n_roots = 0
+    for c in [fitb] + fitb.all_subclasses():
+        m = c.methods.get("__copy__")
+        if m is None:
+            continue
+        for call in walk_local(m.node):
+            if not (isinstance(call, ast.Call) and call_name(call) == "deepcopy" and call.args):
+                continue
+            arg = call.args[0]
+            attr = self_attr(arg)
+            if attr is None:
+                chk.bad("R11-d", eng.relfile(m), call.lineno, m.fq, f"`{short(call)}` deep-copies something that is not an attribute of the fitness object", "the copied type is unknown", keyparts="deepcopy-arg")
+                continue
+            ann = c.instance_attr_annotations().get(attr)
+            roots = [k for n in _ann_all_class_names(ann) for k in classes_named(n)]
+            if not roots:
+                raise AnalysisError(f"{m.fq}: cannot type `self.{attr}`")
+            n_roots += 1
+            # breadth-first over the field graph
+            seen: dict[str, Optional[tuple[str, str]]] = {}
+            queue = []
+            for r in roots:
+                for k in [r] + r.all_subclasses():
+                    if k.fq not in seen:
+                        seen[k.fq] = None
+                        queue.append(k)
+            trusted, generic = [], []
+            bad = None
+            while queue and bad is None:
+                k = queue.pop(0)
+                dc = k.lookup("__deepcopy__")
+                shared: set[str] = set()
+                if dc is not None:
+                    src = ast.unparse(dc.node)
+                    if "__dict__" not in src:
+                        trusted.append(k.name)
+                        continue
+                    generic.append(k.name)
+                    for n in ast.walk(dc.node):
+                        if isinstance(n, ast.Assign) and len(n.targets) == 1 and isinstance(n.targets[0], ast.Subscript) and norm(n.targets[0].value) == "memo":
+                            a = self_attr(n.value)
+                            if a is not None and f"id(self.{a})" in norm(n.targets[0].slice):
+                                shared.add(a)
+                anns = k.instance_attr_annotations()
+                stored = {n.attr for kk in k.mro() for mm in kk.methods.values() for n in ast.walk(mm.node)
+                          if isinstance(n, ast.Attribute) and isinstance(n.ctx, ast.Store) and isinstance(n.value, ast.Name) and n.value.id == "self"}
+                own = UNCOPYABLE_ATTRS & (set(anns) | stored)
+                if own:
+                    bad = (k, sorted(own)[0])
+                    break
+                for a, an in anns.items():
+                    if a in shared:
+                        continue
+                    for nm in _ann_all_class_names(an):
+                        for t in classes_named(nm):
+                            for kk in [t] + t.all_subclasses():
+                                if kk.fq not in seen:
+                                    seen[kk.fq] = (k.fq, a)
+                                    queue.append(kk)
+            if bad is not None:
+                k, a = bad
+                path = [f"{k.name}.{a}"]
+                cur = k.fq
+                while seen.get(cur) is not None:
+                    pk, pa = seen[cur]  # type: ignore[misc]
+                    path.append(f"{pk.split(':')[-1]}.{pa}")
+                    cur = pk
+                path.reverse()
+                chk.bad("R11-d", eng.relfile(m), call.lineno, m.fq, f"`{short(call)}` can descend {' -> '.join(path)}",
+                        "the spec's globals hold module objects: deepcopy raises TypeError on a memo hit, so the cached evaluation of a tree fails (and loses its "
+                        "failing trees and suggestion) where a fresh evaluation succeeds; copying grammar objects would also detach the suggestion from the grammar",
+                        path=path, keyparts=f"deepcopy-reaches|{k.name}.{a}")
+            else:
+                chk.ok("R11-d", m.fq, call.lineno, f"`{short(call)}`: closure of {len(seen)} classes stays clear of the spec's globals "
+                       f"(own __deepcopy__: {sorted(set(trusted))}; generic with shared fields: {sorted(set(generic))})")
+    if n_roots == 0:
+        chk.ok("R11-d", fitb.fq, 0, "no Fitness.__copy__ deep-copies anything", nontrivial=False)
+    # every memo hit goes through such a __copy__ (R11-c); count the hand-written __deepcopy__ methods the closure trusts
+    for cname in ("DerivationTree", "TreeValue"):
+        for k in classes_named(cname):
+            dc = k.lookup("__deepcopy__")
+            if dc is not None:
+                reaches = [n.attr for n in ast.walk(dc.node) if isinstance(n, ast.Attribute) and n.attr in UNCOPYABLE_ATTRS]
+                if reaches:
+                    chk.bad("R11-d", eng.relfile(dc), dc.line, dc.fq, f"{cname}.__deepcopy__ touches {reaches[0]}", "a tree copy would copy spec globals", keyparts=f"trusted-deepcopy|{cname}")
+                else:
+                    chk.ok("R11-d", dc.fq, dc.line, f"{cname}.__deepcopy__ is hand-written and copies no spec globals")
+
+
 # ------------------------------------------------------------------ self-test variants
 from ..mutants import M  # noqa: E402
 
@@ -288,6 +418,10 @@ MUTANTS = [
     M("conjunction-hit-no-copy", _CON, "        if tree_hash in self.cache:\n            return copy(self.cache[tree_hash])", "        if tree_hash in self.cache:\n            return self.cache[tree_hash]", "R11-c"),
     M("implication-mutates-uncopied", _IMP, "            fitness = copy(self.consequent.fitness(tree, scope, local_variables))", "            fitness = self.consequent.fitness(tree, scope, local_variables)", "R11-c"),
     M("copy-returns-self", _FT, "    def __copy__(self) -> Fitness:\n        return ConstraintFitness(\n            solved=self.solved,\n            total=self.total,\n            success=self.success,\n            failing_trees=self.failing_trees[:],\n            suggestion=copy.deepcopy(self.suggestion),\n        )", "    def __copy__(self) -> Fitness:\n        return self", "R11-c"),
+]
+MUTANTS += [
+    M("suggestion-copy-descends-into-grammar", "src/fandango/constraints/repetition_bounds.py", "        memo[id(self._repetition_node)] = self._repetition_node\n", "", "R11-d"),
+    M("fitness-copy-copies-failing-tree-causes", _FT, "            failing_trees=self.failing_trees[:],\n            suggestion=copy.deepcopy(self.suggestion),\n", "            failing_trees=copy.deepcopy(self.failing_trees),\n            suggestion=copy.deepcopy(self.suggestion),\n", "R11-d"),
 ]
 TWINS = [
     M("twin-key-name", _IMP, "tree_hash", "memo_key", None, count=4),
